@@ -29,6 +29,7 @@ fn main() {
         "partchild" => partition::partchild(&opts),
         "partition" => partition::run(&opts),
         "recrash" => crash::run_recrash(&opts),
+        "fault" => crash::run_fault(&opts),
         "f3child" => f3::f3child(&opts),
         "f3" => f3::run(&opts),
         "mutimg" => mutimg::run(&opts),
